@@ -130,7 +130,7 @@ def pvtkMergeField {α} (isPoint : Bool) (extents : List (List Int)) (pieceValue
   let sd := structuredDecomposition extents
   mergeStructured isPoint sd.mergerDecomposition (fun loc => pieceValues.getD (sd.domainId loc) []) zero
 
-/-! ### `PVTRReader._make_structured_mesh`: assembling the ordinates (findings F14, F15 live here) -/
+/-! ### `PVTRReader._make_structured_mesh`: assembling the ordinates (findings F16, F17 — fixed — lived here) -/
 
 /-- numpy `a[off : off + len(po)] = po`: the slice is clipped to `a`; a one-element right-hand side
     broadcasts, any other length must match the clipped slice exactly (`none` = ValueError) -/
@@ -162,24 +162,40 @@ def StructuredDecomposition.domainIdChecked (sd : StructuredDecomposition) (loc 
   if loc.length = sd.orderShape.length ∧ (List.zipWith (fun i n => decide (i < n)) loc sd.orderShape).all id
   then some (sd.domainId loc) else none
 
-/-- `domain_location = tuple(i if k == direction else 0 for k in range(decomposition.dimension()))`
-    — `k` runs over POSITIONS among the meshed directions but is compared with the VTK DIRECTION
-    (finding F14: wrong as soon as a flat direction precedes a meshed one) -/
-def pvtrDomainLocation (sd : StructuredDecomposition) (dir i : Nat) : List Nat :=
-  (List.range sd.meshedDimensions.length).map fun k => if k = dir then i else 0
+/-- `domain_location = tuple(i if k == position else 0 for k in range(decomposition.dimension()))`:
+    piece locations are indexed by the POSITION among the meshed directions (fix 444374c of F16) -/
+def pvtrDomainLocation (sd : StructuredDecomposition) (pos i : Nat) : List Nat :=
+  (List.range sd.meshedDimensions.length).map fun k => if k = pos then i else 0
 
-/-- ordinates of the merged rectilinear grid; `pieceOrds[piece][direction]`.  Flat directions keep
-    the zero initialisation (finding F15). -/
-def pvtrOrdinates (sd : StructuredDecomposition) (pieceOrds : List (List (List Int))) : Option (List (List Int)) :=
-  let init := (List.range 3).map fun dir =>
-    List.replicate ((sd.mergedExtents.getD dir 0).toNat + 1) (0 : Int)
-  sd.meshedDimensions.foldlM (fun ords dir => do
+/-- ordinates of the merged rectilinear grid along VTK direction `dir`; `pieceOrds[piece][direction]`.
+    Flat direction: `ordinates[dir][:] = first_reader.ordinates(dir)[:1]` (fix 444374c of F17; an empty
+    right-hand side cannot be broadcast: `none`).  Meshed direction at position `pos` among the meshed
+    ones: the pieces at locations `(0,…,i,…,0)` are consulted and their ordinates written one after the
+    other, neighbouring pieces sharing one ordinate. -/
+def pvtrLine (sd : StructuredDecomposition) (pieceOrds : List (List (List Int))) (dir : Nat) :
+    Option (List Int) :=
+  let len := (sd.mergedExtents.getD dir 0).toNat + 1
+  if sd.isMeshed dir then do
+    let pos := sd.meshedDimensions.idxOf dir
     let n := (sd.cellsPerAxis.getD dir []).length
     let consulted ← (List.range n).mapM fun i => do
-      let id ← sd.domainIdChecked (pvtrDomainLocation sd dir i)
+      let id ← sd.domainIdChecked (pvtrDomainLocation sd pos i)
       pure ((pieceOrds.getD id []).getD dir [])
-    let line ← assembleLine (ords.getD dir []) consulted
-    pure (ords.set dir line)) init
+    assembleLine (List.replicate len 0) consulted
+  else
+    match ((pieceOrds.getD 0 []).getD dir []).take 1 with
+    | [x] => some (List.replicate len x)
+    | _ => none
+
+/-- `PVTRReader._make_structured_mesh`: the three ordinate arrays (`none` = the reader raises) -/
+def pvtrOrdinates (sd : StructuredDecomposition) (pieceOrds : List (List (List Int))) : Option (List (List Int)) :=
+  (List.range 3).mapM (pvtrLine sd pieceOrds)
+
+/-- ordinates carried by the pieces of one axis of a grid with ordinates `W`, cut into `ns` cells:
+    piece `b` holds `W[off_b … off_b + ns[b]]` (both end points) -/
+def axisPieces (W : List Int) : Nat → List Nat → List (List Int)
+  | _, [] => []
+  | off, n :: r => (W.drop off).take (n + 1) :: axisPieces W (off + n) r
 
 /-! ### what an axis-aligned decomposition looks like (used by spec and generators) -/
 
